@@ -194,6 +194,7 @@ def run_property(pid: str, tier: str, seed: int, write_lock=False, verbose=False
     # known findings given as an *excluded witness condition* (flag): re-verify the function with the condition
     # excluded; what then discharges fails only because of the listed finding, anything else is a new violation
     flag_known = {}
+    flag_undecided = set()
     for kf in known_here:
         if not kf.get("flag") or not kf.get("function"):
             continue
@@ -207,11 +208,18 @@ def run_property(pid: str, tier: str, seed: int, write_lock=False, verbose=False
             discharge([r2], budget=budget, covers=False)
         finally:
             REG.flags[kf["flag"]] = False
-        still = {ob.coarse_id for ob in r2.obligations if ob.result and ob.result["result"] != "unsat"}
+        still = {ob.coarse_id for ob in r2.obligations if ob.result and ob.result["result"] == "sat"}
+        unknown2 = {ob.coarse_id for ob in r2.obligations if ob.result and ob.result["result"] == "unknown"}
         if r2.unsupported:
             still = {ob.coarse_id for _, ob in failing}
         for r, ob in failing:
-            if ob.coarse_id not in still:
+            if ob.coarse_id in unknown2:
+                # the re-verification under the exclusion was not decided (solver budget): neither attributable to the
+                # listed finding nor a new violation -> undecided
+                flag_undecided.add(id(ob))
+                undecided.append({"obligation": ob.coarse_id, "reason": "re-verification under the known-finding exclusion "
+                                  "was not decided within the solver budget"})
+            elif ob.coarse_id not in still:
                 flag_known[id(ob)] = kf
     for r, ob in refuted:
         cid = ob.coarse_id
@@ -220,6 +228,8 @@ def run_property(pid: str, tier: str, seed: int, write_lock=False, verbose=False
         if kf is not None:
             if kf["id"] not in [k["id"] for k in known_hits]:
                 known_hits.append(kf)
+            continue
+        if id(ob) in flag_undecided:
             continue
         if cid in seen_cids:
             continue
@@ -380,6 +390,9 @@ def run_property(pid: str, tier: str, seed: int, write_lock=False, verbose=False
         return 1
     if missing:
         print("undecided: obligations in the lock were not generated:", missing[:10])
+        return 2
+    if flag_undecided:
+        print("UNDECIDED: the known-finding re-verification was not decided within the solver budget")
         return 2
     lock_und = [u for u in undecided if u.get("obligation") in locked or
                 (u.get("function") and any(l.startswith(u["function"] + "::") for l in locked))]
